@@ -64,7 +64,7 @@ theorem deep_sub {P : Stmt → Prop} {s t : Stmt} (hs : Sub s t) (h : Deep P t) 
 /-- What the grouping search reads of the registry and of the linked set, on behalf of modules of `B`. -/
 structure FgAgree (B X : Registry) (lX lB : List Nat) : Prop where
   linked : ∀ m ∈ B.mods, lX.contains m.seq = lB.contains m.seq
-  imp : ∀ m ∈ B.mods, ∀ s, Sub s m.stmt → ∀ i ∈ s.all "import", X.findModule false i = B.findModule false i
+  imp : ∀ m ∈ B.mods, ∀ s, Sub s m.stmt → isModKw s = true → ∀ i ∈ s.all "import", X.findModule false i = B.findModule false i
   inc : ∀ i, X.findModule true i = B.findModule true i
   own : ∀ m ∈ B.mods, m.belongsTo?.bind X.getModule = m.belongsTo?.bind B.getModule
 
@@ -116,7 +116,9 @@ theorem fg_all {B X : Registry} {lX lB : List Nat} (a : FgAgree B X lX lB) : ∀
           · apply ihI
             intro i hi
             split at hi
-            · exact a.imp root hr n hn i hi
+            · next hcond =>
+              simp only [Bool.and_eq_true] at hcond
+              exact a.imp root hr n hn hcond.1 i hi
             · cases hi
           · apply orElse_congr
             · exact ihN _ _ _
@@ -249,6 +251,14 @@ def FuelStable (B : Registry) (fX : Nat) (opts : Opts) (plug : Plug) : Prop :=
 def DeepImports (B X : Registry) : Prop :=
   ∀ m ∈ B.mods, Deep (fun s => ∀ i ∈ s.all "import", X.findModule false i = B.findModule false i) m.stmt
 
+/-- The imports of every statement of a module of `B` that has the keyword `module` / `submodule` (the
+grouping search reads the imports of no other statement) resolve alike. -/
+def ModImports (B X : Registry) : Prop :=
+  ∀ m ∈ B.mods, ∀ s, Sub s m.stmt → isModKw s = true → ∀ i ∈ s.all "import", X.findModule false i = B.findModule false i
+
+theorem DeepImports.modImports {B X : Registry} (hdeep : DeepImports B X) : ModImports B X :=
+  fun m hm _ hs _ i hi => deep_sub hs (hdeep m hm) i hi
+
 /-- The modules of `B` are linked in the one run iff in the other. -/
 def LinkAgree (B X : Registry) : Prop := ∀ m ∈ B.mods, (linkAll X).1.contains m.seq = (linkAll B).1.contains m.seq
 
@@ -256,9 +266,19 @@ section
 variable {B X : Registry} {ds : List Mod} {dk : KeyMap} (h : DevExtCore B X ds dk)
 include h
 
-theorem fgAgree (hdeep : DeepImports B X) (hlink : LinkAgree B X) : FgAgree B X (linkAll X).1 (linkAll B).1 where
+/-- No statement below a (sub)module statement has the keyword `module` or `submodule` (true of every
+statement tree the AST builder accepts). -/
+def FlatModKw (B : Registry) : Prop := ∀ m ∈ B.mods, ∀ s, Sub s m.stmt → isModKw s = true → s = m.stmt
+
+/-- For such a base `ModImports` is what `DevExtCore` says about the imports of the modules of `B`. -/
+theorem modImports_of_flat (hflat : FlatModKw B) : ModImports B X := by
+  intro m hm s hs hk i hi
+  rw [hflat m hm s hs hk] at hi
+  exact h.imports m hm i hi
+
+theorem fgAgree' (hmi : ModImports B X) (hlink : LinkAgree B X) : FgAgree B X (linkAll X).1 (linkAll B).1 where
   linked := hlink
-  imp m hm s hs i hi := deep_sub hs (hdeep m hm) i hi
+  imp := hmi
   inc i := by
     have hx : ∀ (r : Registry), r.subModules = [] → r.findModule true i = none := by
       intro r hr
@@ -271,6 +291,9 @@ theorem fgAgree (hdeep : DeepImports B X) (hlink : LinkAgree B X) : FgAgree B X 
     cases hb : m.belongsTo? with
     | none => rfl
     | some b => rw [hb] at this; simpa using this
+
+theorem fgAgree (hdeep : DeepImports B X) (hlink : LinkAgree B X) : FgAgree B X (linkAll X).1 (linkAll B).1 :=
+  fgAgree' h hdeep.modImports hlink
 
 /-- **`ConvAgree` from the two halves.** -/
 theorem convAgree_of_stable {plug : Plug} (hplug : PlugAgree plug B X) (opts : Opts) (hdeep : DeepImports B X)
